@@ -96,7 +96,8 @@ def cases(tier, seed):
                 out.append(dict(kind="ode", cap_t=cap, nstart_t=ns, sel_t=sel, sample_t=sample, b_t=b, start=start, every=every,
                                 iters=iters, seed=k, land=land, ret=ret, box=[0.0, 1.0] if n % 3 else [-1.0, 2.0]))
                 out.append(dict(kind="statio", dim=1 + (n % 2), cap_x=cap, nstart_x=ns, sel_x=sel, sample_x=sample, b_x=b, start=start,
-                                every=every, iters=iters, seed=k, land=land, ret=ret))
+                                every=every, iters=iters, seed=k, land=land, ret=ret,
+                                **(dict(boxy=[-2.0, -1.0]) if n % 4 == 1 else {})))        # rectangle: own bounds for the second coordinate
                 # time and space with different initial counts, capacities and selected sizes
                 cap2, ns2, sel2 = cap + 1 - (n % 3), max(1, ns + 1 - (n % 3)), 1 + (sel % 3)
                 cap2 = max(cap2, ns2)
@@ -104,7 +105,8 @@ def cases(tier, seed):
                     ret = "vec"          # the non-stationary refinement reshapes the residual to (times, points): one component only
                 out.append(dict(kind="nonstatio", dim=1 + ((n + 1) % 2), cap_t=cap, nstart_t=ns, sel_t=sel, sample_t=max(sample, 2), b_t=min(b, cap),
                                 cap_x=cap2, nstart_x=ns2, sel_x=sel2, sample_x=max(sel2, 3), b_x=min(b, cap2), start=start, every=every,
-                                iters=iters, seed=k, land=land, ret=ret))
+                                iters=iters, seed=k, land=land, ret=ret,
+                                **(dict(tbox=[2.0, 3.0], boxy=[-2.0, -1.0]) if n % 2 else {})))      # time interval / second coordinate with own bounds
                 out.append(dict(kind="nonstatio", dim=1, cap_t=cap, nstart_t=ns, sel_t=sel, sample_t=max(sample, 2), b_t=min(b, cap),
                                 cap_x=cap, nstart_x=ns, sel_x=sel, sample_x=max(sample, 2), b_x=min(b, cap), start=start, every=every,
                                 iters=iters, seed=k, land=land, ret=ret))
